@@ -1,12 +1,149 @@
-(* C18 - preliminary: checker soundness (Kosaraju theorems are added below once proved). *)
+(* C18 - strongly connected components are exactly the mutual-reachability classes: component
+   analysis partitions the vertices, two vertices share a component exactly when each reaches the
+   other along directed edges, every vertex is in exactly one component, and the reported largest
+   component has maximal size.
+
+   Statements only; proofs are in Proofs/SccDfs.v (depth-first search invariant, fuel),
+   Proofs/SccKosaraju.v (two-pass argument), Proofs/SccCheck.v + SccCheckComplete.v (the boolean
+   checker run on the implementation's output decides the property).
+   Vocabulary (Model/Scc.v): [wf g] every edge joins two existing vertices; [reach g x y] a directed
+   path; [mutual g u v := reach g u v /\ reach g v u]; [partition n comps] the concatenation of comps
+   is duplicate-free, holds exactly the vertices 0..n-1, and no block is empty;
+   [same_comp comps u v] some block holds both. *)
 From Coq Require Import List Arith Bool.
-From RC Require Import Base.Res Model.Scc Proofs.SccCheck.
+From RC Require Import Base.Res Model.Scc Proofs.SccCheck Proofs.SccDfs Proofs.SccKosaraju
+     Proofs.SccCheckComplete.
 Import ListNotations.
 Import Scc.
 
+(* ---- the algorithm (model of scc.rs), every well-formed digraph of every size ---- *)
+
+(* Any fuel (= recursion depth allowance) above the vertex count excludes OutOfFuel; the model
+   returns Ok (never EdgeNotFound), the components partition the vertices and are exactly the
+   mutual-reachability classes. *)
+Theorem c18_kosaraju_correct : forall g fuel, wf g -> nv g < fuel ->
+    exists comps, all_sccs_fuel fuel g = Ok comps
+      /\ partition (nv g) comps
+      /\ (forall u v, same_comp comps u v -> mutual g u v)
+      /\ (forall u v, u < nv g -> mutual g u v -> same_comp comps u v).
+Proof. intros g fuel Hwf Hf. exact (kosaraju_correct g Hwf fuel Hf). Qed.
+Check c18_kosaraju_correct : forall g fuel, wf g -> nv g < fuel ->
+    exists comps, all_sccs_fuel fuel g = Ok comps
+      /\ partition (nv g) comps
+      /\ (forall u v, same_comp comps u v -> mutual g u v)
+      /\ (forall u v, u < nv g -> mutual g u v -> same_comp comps u v).
+
+(* the entry point as run by the correspondence stream (fuel = nv g + 1) *)
+Theorem c18_all_sccs_correct : forall g, wf g ->
+    exists comps, all_strongly_connected_components g = Ok comps /\ scc_classes g comps.
+Proof. exact all_sccs_correct. Qed.
+Check c18_all_sccs_correct : forall g, wf g ->
+    exists comps, all_strongly_connected_components g = Ok comps /\ scc_classes g comps.
+
+(* "share a component exactly when each can reach the other", as an equivalence on vertices *)
+Theorem c18_same_component_iff_mutual : forall g comps, scc_classes g comps ->
+    forall u v, u < nv g -> (same_comp comps u v <-> mutual g u v).
+Proof.
+  intros g comps [_ [Hs Hc]] u v Hu. split; [apply Hs | apply Hc, Hu].
+Qed.
+
+(* "every vertex appears in exactly one component" *)
+Theorem c18_exactly_one_component : forall n comps, partition n comps -> forall v, v < n ->
+    exists c, In c comps /\ In v c /\ forall c', In c' comps -> In v c' -> c' = c.
+Proof. exact partition_exactly_one. Qed.
+
+(* "the reported largest component has maximal size among them" (and is one of them) *)
+Theorem c18_largest_maximal : forall g, wf g ->
+    exists comps l, all_strongly_connected_components g = Ok comps
+      /\ largest_strongly_connected_component g = Ok l
+      /\ (forall c, In c comps -> length c <= length l)
+      /\ (0 < nv g -> In l comps)
+      /\ (nv g = 0 -> l = []).
+Proof. exact largest_correct. Qed.
+Check c18_largest_maximal : forall g, wf g ->
+    exists comps l, all_strongly_connected_components g = Ok comps
+      /\ largest_strongly_connected_component g = Ok l
+      /\ (forall c, In c comps -> length c <= length l)
+      /\ (0 < nv g -> In l comps)
+      /\ (nv g = 0 -> l = []).
+
+(* ---- the lemmas behind it, pinned because they are the content of the argument ---- *)
+
+(* depth-first search from any state satisfying the invariant, over any successor function:
+   invariant preserved; the added block sits on top of the stack, is disjoint from the old visited
+   set and consists of vertices reachable from the root inside the block (white-path, post-order) *)
+Theorem c18_dfs_invariant : forall next fuel v V S V' S',
+    pdfs next fuel v (V, S) = Ok (V', S') -> Inv next V S ->
+    Inv next V' S' /\ Ext next [v] V S V' S' /\ In v V'.
+Proof. intros next fuel. exact (proj1 (dfs_spec next fuel)). Qed.
+
+(* recursion depth never exceeds the number of unvisited vertices + 1 *)
+Theorem c18_dfs_fuel : forall next n, (forall x y, x < n -> In y (next x) -> y < n) ->
+    forall fuel v st, n < fuel -> v < n -> exists st', pdfs next fuel v st = Ok st'.
+Proof. exact dfs_fuel_ok. Qed.
+
+(* on a well-formed graph the model's searches are the pure search over succs / preds *)
+Theorem c18_model_dfs_is_pure : forall g, wf g ->
+    (forall f v st, depth_first_search g f v st = pdfs (succs g) f v st)
+    /\ (forall f v st, reverse_depth_first_search g f v st = pdfs (preds g) f v st).
+Proof. intros g H. split; [apply dfs1_pure, H | apply dfs2_pure, H]. Qed.
+
+(* ---- the checker evaluated on the implementation's output (S lines) decides the property ---- *)
 Theorem c18_check_scc_sound : forall g comps, check_scc g comps = true ->
     wf g /\ partition (nv g) comps
     /\ (forall u v, same_comp comps u v -> mutual g u v)
     /\ (forall u v, u < nv g -> mutual g u v -> same_comp comps u v).
 Proof. exact check_scc_sound. Qed.
+Theorem c18_check_scc_complete : forall g comps, wf g -> scc_classes g comps -> check_scc g comps = true.
+Proof. exact check_scc_complete. Qed.
+Theorem c18_check_scc_decides : forall g comps, wf g -> (check_scc g comps = true <-> scc_classes g comps).
+Proof. exact check_scc_iff. Qed.
+Check c18_check_scc_decides : forall g comps, wf g -> (check_scc g comps = true <-> scc_classes g comps).
+Theorem c18_check_largest_sound : forall comps l, check_largest comps l = true ->
+    (forall c, In c comps -> length c <= length l) /\ (In l comps \/ (comps = [] /\ l = [])).
+Proof. exact check_largest_sound. Qed.
+Theorem c18_check_largest_complete : forall comps l,
+    (forall c, In c comps -> length c <= length l) -> (In l comps \/ (comps = [] /\ l = [])) ->
+    check_largest comps l = true.
+Proof. exact check_largest_complete. Qed.
+
+(* ---- non-vacuity: concrete graphs meet the hypotheses and have non-trivial answers ---- *)
+(* the fixture of scc.rs's own tests: a 4-clique {0,1,2,3} and the self loop 4 *)
+Definition fixture : graph :=
+  mkGraph 5 [(0,1);(1,0);(1,2);(2,1);(2,3);(3,2);(3,0);(0,3);(0,2);(1,3);(2,0);(3,1);(4,4)].
+Example c18_fixture_wf : wf fixture.
+Proof. apply wfb_wf. vm_compute. reflexivity. Qed.
+Example c18_fixture_result :
+  all_strongly_connected_components fixture = Ok [[4]; [0; 1; 2; 3]]
+  /\ largest_strongly_connected_component fixture = Ok [0; 1; 2; 3].
+Proof. split; vm_compute; reflexivity. Qed.
+(* a graph where the pass-1 order matters: 0 -> 1 -> 2 -> 0 is a cycle, 2 -> 3 -> 4 -> 3 a second
+   one reachable from the first but not back, 5 isolated *)
+Definition two_cycles : graph := mkGraph 6 [(0,1);(1,2);(2,0);(2,3);(3,4);(4,3)].
+Example c18_two_cycles :
+  wf two_cycles
+  /\ all_strongly_connected_components two_cycles = Ok [[5]; [0; 2; 1]; [3; 4]]
+  /\ check_scc two_cycles [[5]; [0; 1; 2]; [3; 4]] = true
+  /\ check_scc two_cycles [[5]; [0; 1; 2; 3; 4]] = false
+  /\ check_scc two_cycles [[5]; [0; 1]; [2]; [3; 4]] = false.
+Proof. split; [apply wfb_wf; vm_compute; reflexivity|]. repeat split; vm_compute; reflexivity. Qed.
+(* the hypotheses of the fuel theorem are tight in the model: with fuel = nv g a cycle runs out
+   (the call that finds the root already visited sits at depth nv g + 1) *)
+Example c18_fuel_tight :
+  all_sccs_fuel 3 (mkGraph 3 [(0,1);(1,2);(2,0)]) = OutOfFuel
+  /\ all_sccs_fuel 4 (mkGraph 3 [(0,1);(1,2);(2,0)]) = Ok [[0; 2; 1]].
+Proof. split; vm_compute; reflexivity. Qed.
+
+Print Assumptions c18_kosaraju_correct.
+Print Assumptions c18_all_sccs_correct.
+Print Assumptions c18_same_component_iff_mutual.
+Print Assumptions c18_exactly_one_component.
+Print Assumptions c18_largest_maximal.
+Print Assumptions c18_dfs_invariant.
+Print Assumptions c18_dfs_fuel.
+Print Assumptions c18_model_dfs_is_pure.
 Print Assumptions c18_check_scc_sound.
+Print Assumptions c18_check_scc_complete.
+Print Assumptions c18_check_scc_decides.
+Print Assumptions c18_check_largest_sound.
+Print Assumptions c18_check_largest_complete.
